@@ -125,7 +125,11 @@ func Generate(r *rng.R, o Opts) *Program {
 					g.f("dep:imported")
 				}
 			}
-			if e.isVar && r.Chance(1, 5) {
+			if e.isVar && r.Chance(1, 6) {
+				// multi-value initialiser: one call initialises two variables (the second is a helper name)
+				g.f("init:multi-value")
+				e.expr = "MULTI:" + strings.Join(terms, " + ")
+			} else if e.isVar && r.Chance(1, 5) {
 				// initialiser that starts a goroutine and waits for its result
 				g.f("init:goroutine-in-initialiser")
 				e.expr = fmt.Sprintf("spawn%d(%s)", k, strings.Join(terms, "+"))
@@ -153,7 +157,9 @@ func Generate(r *rng.R, o Opts) *Program {
 		for _, oi := range order {
 			e := ents[oi]
 			var decl string
-			if e.isVar {
+			if e.isVar && strings.HasPrefix(e.expr, "MULTI:") {
+				decl = fmt.Sprintf("var %s, aux%d = pair%d(%s)\n\nfunc pair%d(v int) (int, int) { return v %% 9973, y.Y(%d) }\n\nvar _ = y.Tr(aux%d)", e.name, e.rank, e.rank, strings.TrimPrefix(e.expr, "MULTI:"), e.rank, g.next(), e.rank)
+			} else if e.isVar {
 				decl = fmt.Sprintf("var %s = %s", e.name, e.expr)
 				if strings.HasPrefix(e.expr, "spawn") {
 					decl += fmt.Sprintf("\n\nfunc spawn%d(v int) int {\n\tc := make(chan int)\n\tgo func() { c <- v + y.Y(%d) }()\n\treturn <-c %% 9973\n}", e.rank, g.next())
